@@ -1,6 +1,89 @@
-import MotoModel.Model.DiskCli
+/-
+  C04 — created disk images conform to the Thomson DOS layout.
+  (first layer: geometry, dispatch table, entry layout, a freshly initialised side passes the
+   independent checker)
+-/
+import MotoModel.Proofs.DiskSector
 import MotoModel.Spec.Dos
 namespace Moto.C04
 open Moto Moto.Disk
-theorem placeholder : computeRequiredSlots 0 255 = (0, 255) := rfl
+
+/-- the processor table of the tool (regenerated on every run) is the documented one:
+    BAS → BASIC/binary, BAS,A → BASIC/ASCII stored as BAS, BIN → module/binary, TXT → text/ASCII,
+    AUTO.BAT → BASIC/binary; anything else → data/binary -/
+theorem kind_table :
+    Gen.Disk.processors = [(Tape.str "BAS", 0, 0, none), (Tape.str "BAS,A", 0, 255, some (Tape.str "BAS")),
+                           (Tape.str "BIN", 2, 0, none), (Tape.str "TXT", 3, 255, none), (Tape.str "AUTO.BAT", 0, 0, none)]
+    ∧ Gen.Disk.defaultProcessor = (1, 0, none) := by decide
+
+theorem dispatch_examples :
+    dispatch (Tape.str "PROG") (Tape.str "BAS") (Tape.str "BAS") = (0, 0, Tape.str "BAS")
+    ∧ dispatch (Tape.str "PROG") (Tape.str "BAS") (Tape.str "BAS,A") = (0, 255, Tape.str "BAS")
+    ∧ dispatch (Tape.str "M") (Tape.str "BIN") (Tape.str "BIN") = (2, 0, Tape.str "BIN")
+    ∧ dispatch (Tape.str "README") (Tape.str "TXT") (Tape.str "TXT") = (3, 255, Tape.str "TXT")
+    ∧ dispatch (Tape.str "AUTO") (Tape.str "BAT") (Tape.str "BAT") = (0, 0, Tape.str "BAT")
+    ∧ dispatch (Tape.str "X") (Tape.str "DAT") (Tape.str "DAT") = (1, 0, Tape.str "DAT")
+    ∧ dispatch (Tape.str "NOEXT") [] [] = (1, 0, []) := by decide
+
+theorem status_codes : Gen.Disk.bsFree = 0xFF ∧ Gen.Disk.bsReserved = 0xFE ∧ Gen.Disk.bsLastBlock = 0xC0
+    ∧ Gen.Disk.bsMaxNext = 160 ∧ Gen.Disk.bsMinLast = 0xC1 ∧ Gen.Disk.bsMaxLast = 0xC9 := ⟨rfl, rfl, rfl, rfl, rfl, rfl⟩
+
+/-- the model's validity test of a status is the layout's -/
+theorem valid_status_is_layout_all : ∀ s < 256, validStatus s = Spec.Dos.okStatus s := by decide +kernel
+
+theorem valid_status_is_layout (s : Nat) (h : s < 256) : validStatus s = Spec.Dos.okStatus s :=
+  valid_status_is_layout_all s h
+
+theorem bytesFromStr_length (s : Str) (n : Nat) : (bytesFromStr s n).length = n := by
+  unfold bytesFromStr
+  split
+  · simp; omega
+  · simp; omega
+
+/-- **C04 (entry layout)**: name 8, extension 3, kind, ASCII flag, first block, bytes in the last
+    sector (big endian), sixteen padding bytes: 32 bytes for every name and extension length -/
+theorem entry_layout (name ext : Str) (kind flag first lastBytes : Nat) :
+    (newRecord name ext kind flag first lastBytes).length = 32
+    ∧ (newRecord name ext kind flag first lastBytes).drop 11
+        = [kind, flag, first, (lastBytes / 256) % 256, lastBytes % 256] ++ Gen.Disk.paddingOfRecord := by
+  unfold newRecord
+  have h8 := bytesFromStr_length (upper name) 8
+  have h3 := bytesFromStr_length (upper ext) 3
+  have hp : Gen.Disk.paddingOfRecord.length = 16 := by decide
+  constructor
+  · simp [h8, h3, hp]
+  · simp only [List.append_assoc]
+    rw [List.drop_append_of_le_length (by simp [h8, h3])]
+    have : ((bytesFromStr (upper name) 8 ++ bytesFromStr (upper ext) 3).map fun c => if c < 32 then Gen.Disk.invalidChar else c).drop 11 = [] := by
+      apply List.drop_of_length_le; simp [h8, h3]
+    rw [this]; rfl
+
+/-- **C04 (geometry)**: a saved image of four well-formed sides has 4 x 80 x 16 sectors -/
+theorem image_length (fl : Flavour) (img : Image) (h : C11.WFImage img) (h4 : img.length = 4) :
+    (save fl img).length = 4 * (80 * 16 * sectorSize fl) := by
+  rw [C11.save_length fl img h, h4]
+
+/-- in an SDDrive image every 512-byte slot is a payload followed by 256 bytes of FF -/
+theorem sd_slots (img : Image) : save .sd img = img.flatten.flatMap (· ++ List.replicate 256 0xFF) := by
+  rw [C11.save_sd_interleave, C11.sd_padding]
+
+theorem setBat_wf (sd : Side) (bat : List Nat) (h : C11.WFSide sd) : C11.WFSide (setBat sd bat) := by
+  unfold setBat; exact putSector_wf _ _ _ _ h
+
+theorem fold_put_wf (l : List Nat) (v : Bytes) : ∀ (s : Side), C11.WFSide s →
+    C11.WFSide (l.foldl (fun acc s => putSector acc batTrack s v) s) := by
+  induction l with
+  | nil => intro s hs; exact hs
+  | cons x xs ih => intro s hs; exact ih _ (putSector_wf _ _ _ _ hs)
+
+/-- `initFileSystem` keeps the geometry -/
+theorem init_wf (sd : Side) (h : C11.WFSide sd) : C11.WFSide (initFileSystem sd) := by
+  unfold initFileSystem
+  exact fold_put_wf _ _ _ (setBat_wf _ _ (putSector_wf _ _ _ _ h))
+
+/-- **C04 (a fresh side is a file system)**: the side `--create` starts from — blank sectors,
+    `initFileSystem` — is accepted by the independent checker written from the layout description:
+    table byte 0 zero, 160 valid statuses, blocks 40 and 41 reserved, empty catalog, nothing leaked. -/
+theorem fresh_side_is_consistent : Spec.Dos.fsck true (initFileSystem blankSide) = true := by decide +kernel
+
 end Moto.C04
